@@ -79,7 +79,7 @@ impl<'a, 'b> Gen<'a, 'b> {
             | 4 => ["\"\"", "\"s\"", "\"two words\"", "\"esc\\n\\t\\\\\\\"\"", "\"-/ not a comment /-\"", "\"-- no\""]
                 [self.t.below(6)]
             .to_string(),
-            | 5 => ["'c'", "' '", "'\\n'", "'\\''", "'\\\\'", "'|'", "'~'"][self.t.below(7)].to_string(),
+            | 5 => ["'c'", "' '", "'\\n'", "'\\''", "'\\\\'", "'|'", "'~'", "'''", "'\"'", "'-'", "'/'"][self.t.below(11)].to_string(),
             | 6 => "9223372036854775807".into(),
             | 7 => "-9223372036854775808".into(),
             | 8 => [
